@@ -12,7 +12,7 @@ Decided:
   LOWER      lowering `if (H) { G }` turns every hypothesis into a FromEnv clause
 """
 from core import enum_matches, select_arms, V, walk, calls, peel, callee_matches, var_name, expr_vars, trace_is_call
-from kit import need_body, has_call, short, result_expr, mentions_field, thir_all, reachable_nodes, ctor_names, for_loops, loop_total
+from kit import need_body, has_call, short, result_expr, mentions_field, thir_all, reachable_nodes, ctor_names, for_loops, loop_total, collector_never_breaks
 
 
 def run(ck, facts, tier):
@@ -184,3 +184,7 @@ def run(ck, facts, tier):
                 ck.ok(R, "Goal::Implies:every-hypothesis->FromEnv-clause")
             else:
                 ck.violation(R, "Goal::Implies:every-hypothesis->FromEnv-clause", b.where(arm["ln"]), "every hypothesis must be kept and converted with into_from_env_clause")
+
+    R = "C06.ELAB-COLLECT-ALL"
+    ck.rule(R, "K1: EnvElaborator (elaborates every hypothesis of the environment) never aborts its traversal (no visit method returns ControlFlow::Break)")
+    collector_never_breaks(ck, R, facts, "chalk_solve", "<chalk_solve::clauses::env_elaborator::EnvElaborator as chalk_ir::visit::TypeVisitor>::", "EnvElaborator", 1)
